@@ -179,12 +179,12 @@ def run(ctx):
                     ctx.fail(r[0], r[1], c)
 
     for k, c in enumerate(hcases):  # one execution per history serves the oracle and the correspondence
-        c01_hist.run_history(c, want_terms=k < ctx.n(8, 120))
+        c01_hist.run_history(c, want_terms=k < ctx.n(8, 60))
     run_oracle(cases + fcases + hcases)
     # relation B compares polygon vertices in file order: scenarios with a polygon of undecided rotation sense stay out
     codec_run.xml_corr(ctx, [c for c in cases if not c01_hist.fragile_case(c)], ctx.n(40, 400))
     corr_f2s(ctx, fcases)
-    c01_hist.hist_corr(ctx, hcases, ctx.n(8, 120))
+    c01_hist.hist_corr(ctx, hcases, ctx.n(8, 60))
     if (ctx.proof_breaks or ctx.corr_breaks) and not ctx.failures:
         ctx.log("proof/correspondence broke; widening the search")
         run_oracle([b["case"] for b in ctx.corr_breaks if isinstance(b.get("case"), dict)])
